@@ -414,7 +414,8 @@ class DynGraph(nx.Graph):
                                 self.time_to_edge[t[1] + 1] = {(u, v, "-"): None}
 
                     app[-1][1] = t[1]
-                else:
+                elif t[0] > max_end:
+                    # a span inside the latest run is already covered by it
                     app.append(t)
         else:
             datadict['t'] = [t]
